@@ -68,6 +68,7 @@ func renamePhase(c *Ctx, typesOnly bool) (map[string]bool, []string) {
 		}
 		p := c.Pkgs[pk]
 		funcs, members := declaredMembers(pk, p.Types)
+		curBodies := bodyFingerprints(pk, p.Syntax)
 		objOf := func(key string) types.Object {
 			rest := strings.TrimPrefix(key, pk+":")
 			sc := p.Types.Scope()
@@ -94,6 +95,13 @@ func renamePhase(c *Ctx, typesOnly bool) (map[string]bool, []string) {
 							for i := 0; i < named.NumMethods(); i++ {
 								if named.Method(i).Name() == mn {
 									return named.Method(i)
+								}
+							}
+							if it, ok := named.Underlying().(*types.Interface); ok {
+								for i := 0; i < it.NumExplicitMethods(); i++ {
+									if it.ExplicitMethod(i).Name() == mn {
+										return it.ExplicitMethod(i)
+									}
 								}
 							}
 						}
@@ -158,6 +166,12 @@ func renamePhase(c *Ctx, typesOnly bool) (map[string]bool, []string) {
 								continue
 							}
 							sc := lcs(strings.ToLower(m.name), strings.ToLower(f.name))
+							// functions: what the body selects and calls says more than the name
+							if rb, has := knownBodies[m.key]; has {
+								if cb, has2 := curBodies[f.key]; has2 {
+									sc = 1000*jaccardPermille(rb, cb)/1000 + sc
+								}
+							}
 							if sc > bestScore {
 								best, bestScore, tie = fi, sc, false
 							} else if sc == bestScore {
@@ -216,6 +230,12 @@ func lcs(a, b string) int {
 
 // applyRename sets the name of every identifier that defines or uses obj, in every loaded repo package.
 func applyRename(c *Ctx, obj types.Object, name string) {
+	if c.Renamed == nil {
+		c.Renamed = map[string]string{}
+	}
+	if v, ok := obj.(*types.Var); ok && v.IsField() {
+		c.Renamed[name] = obj.Name() // reference field name → the name used by the tree (and by its templates)
+	}
 	for _, p := range c.Pkgs {
 		if p.TypesInfo == nil {
 			continue
@@ -231,4 +251,27 @@ func applyRename(c *Ctx, obj types.Object, name string) {
 			})
 		}
 	}
+}
+
+// jaccardPermille: similarity of two space-separated name sets, 0..1000.
+func jaccardPermille(a, b string) int {
+	sa, sb := map[string]bool{}, map[string]bool{}
+	for _, x := range strings.Fields(a) {
+		sa[x] = true
+	}
+	for _, x := range strings.Fields(b) {
+		sb[x] = true
+	}
+	inter, union := 0, len(sb)
+	for x := range sa {
+		if sb[x] {
+			inter++
+		} else {
+			union++
+		}
+	}
+	if union == 0 {
+		return 1000
+	}
+	return inter * 1000 / union
 }
